@@ -114,10 +114,10 @@ def check_c10(prop, tier):
             if c in fails:
                 o.status = FAILED
                 o.detail = "history " + fails[c]
-                o.witness = {"history": fails[c], "legend": "events 0,1,2 = request vector 36,37,39; 3 = instruction boundary with I clear; 4 = boundary with I set"}
+                o.witness = {"history": fails[c], "legend": "events 0,1,2 = request vector 1,36,63; 3 = instruction boundary with I clear; 4 = boundary with I set"}
             else:
                 o.status = DISCHARGED
-        rep.bounds.append("C10/bounded/*: all %d histories of 7 events over {request 36|37|39, boundary unmasked, boundary masked} on the real code, natively (BOUNDED, not counted as proved; the unbounded argument is the Verus unit irq)" % n)
+        rep.bounds.append("C10/bounded/*: all %d histories of 7 events over {request vector 1|36|63, boundary unmasked, boundary masked} on the real code, natively (BOUNDED, not counted as proved; the unbounded argument is the Verus unit irq)" % n)
         rep.cmds.append("cargo test --offline native_c10_bounded (RUSTFLAGS=--cfg koge29_verif, KOGE29_C10=1)")
     scan_call_sites(rep)
     rep.assumptions.append("Cpu::interrupt is external_body in the Verus unit; its contract (enters through the vector of the number it is given, never touches the queue) is what the Kani harness c06_interrupt_entry proves of the real body (cross-engine assume/guarantee)")
